@@ -32,6 +32,12 @@ type Case struct {
 	Opt     string `json:"opt"`  // "+"-joined: PD UT sub insitu log nilb ("" = default)
 	Mask    []bool `json:"mask,omitempty"`
 	Rhs     []int  `json:"rhs,omitempty"`
+	// Views: which caller-supplied operands are VIEWS of a larger storage instead of plain
+	// matrices/vectors: comma-separated operand=kind, operands in the fixed order of viewOperands,
+	// plain operands omitted. Matrix kinds: T (transposed view of an n x n matrix), S (n x n slice
+	// of an (n+2) x (n+3) matrix), ST (slice of the transposed (n+2) x (n+3) matrix); vector kind:
+	// S (slice of a vector of length n+3).
+	Views string `json:"views,omitempty"`
 }
 
 var elemTypes = map[string]ad.ScalarType{
@@ -56,8 +62,60 @@ func has(opt, tok string) bool {
 	return false
 }
 
-func buildMatrix(t ad.ScalarType, m exact.Mat) ad.Matrix {
-	r := ad.NullDenseMatrix(t, m.N, m.N)
+// viewOf returns the view kind of an operand in a Views string ("" = plain).
+func viewOf(views, operand string) string {
+	if views == "" {
+		return ""
+	}
+	for _, t := range strings.Split(views, ",") {
+		if strings.HasPrefix(t, operand+"=") {
+			return t[len(operand)+1:]
+		}
+	}
+	return ""
+}
+
+// newMatrix allocates an n x n matrix of the given view kind; the storage outside a sliced
+// view is filled with finite junk.
+func newMatrix(t ad.ScalarType, n int, kind string) ad.Matrix {
+	switch kind {
+	case "":
+		return ad.NullDenseMatrix(t, n, n)
+	case "T":
+		return ad.NullDenseMatrix(t, n, n).T()
+	case "S", "ST":
+		big := ad.NullDenseMatrix(t, n+2, n+3)
+		for i := 0; i < n+2; i++ {
+			for j := 0; j < n+3; j++ {
+				big.At(i, j).SetFloat64(-7.5 + 0.5*float64(i) + 2.25*float64(j))
+			}
+		}
+		if kind == "S" {
+			return big.Slice(1, n+1, 2, n+2)
+		}
+		return big.T().Slice(2, n+2, 1, n+1)
+	}
+	panic("harness: unknown matrix view kind " + kind)
+}
+
+func newVector(t ad.ScalarType, n int, kind string) ad.Vector {
+	switch kind {
+	case "":
+		return ad.NullDenseVector(t, n)
+	case "S":
+		big := ad.NullDenseVector(t, n+3)
+		for i := 0; i < n+3; i++ {
+			big.At(i).SetFloat64(6.5 - 1.25*float64(i))
+		}
+		return big.Slice(2, n+2)
+	}
+	panic("harness: unknown vector view kind " + kind)
+}
+
+func buildMatrix(t ad.ScalarType, m exact.Mat) ad.Matrix { return buildMatrixV(t, m, "") }
+
+func buildMatrixV(t ad.ScalarType, m exact.Mat, kind string) ad.Matrix {
+	r := newMatrix(t, m.N, kind)
 	for i := 0; i < m.N; i++ {
 		for j := 0; j < m.N; j++ {
 			r.At(i, j).SetFloat64(float64(m.At(i, j)))
@@ -66,8 +124,10 @@ func buildMatrix(t ad.ScalarType, m exact.Mat) ad.Matrix {
 	return r
 }
 
-func buildVector(t ad.ScalarType, v []int) ad.Vector {
-	r := ad.NullDenseVector(t, len(v))
+func buildVector(t ad.ScalarType, v []int) ad.Vector { return buildVectorV(t, v, "") }
+
+func buildVectorV(t ad.ScalarType, v []int, kind string) ad.Vector {
+	r := newVector(t, len(v), kind)
 	for i := range v {
 		r.At(i).SetFloat64(float64(v[i]))
 	}
@@ -75,8 +135,10 @@ func buildVector(t ad.ScalarType, v []int) ad.Vector {
 }
 
 // garbage: finite, nonzero, non-symmetric dyadic junk for caller-supplied buffers.
-func garbageMatrix(t ad.ScalarType, n int) ad.Matrix {
-	r := ad.NullDenseMatrix(t, n, n)
+func garbageMatrix(t ad.ScalarType, n int) ad.Matrix { return garbageMatrixV(t, n, "") }
+
+func garbageMatrixV(t ad.ScalarType, n int, kind string) ad.Matrix {
+	r := newMatrix(t, n, kind)
 	for i := 0; i < n; i++ {
 		for j := 0; j < n; j++ {
 			r.At(i, j).SetFloat64(1.5 + 0.75*float64(i) - 1.25*float64(j))
@@ -84,8 +146,10 @@ func garbageMatrix(t ad.ScalarType, n int) ad.Matrix {
 	}
 	return r
 }
-func garbageVector(t ad.ScalarType, n int) ad.Vector {
-	r := ad.NullDenseVector(t, n)
+func garbageVector(t ad.ScalarType, n int) ad.Vector { return garbageVectorV(t, n, "") }
+
+func garbageVectorV(t ad.ScalarType, n int, kind string) ad.Vector {
+	r := newVector(t, n, kind)
 	for i := 0; i < n; i++ {
 		r.At(i).SetFloat64(-2.5 + 1.75*float64(i))
 	}
@@ -184,7 +248,17 @@ func regularClass(cs Case, b exact.Mat) string {
 		return "regular"
 	}
 	p := b.PivotPerm()
-	s := "pivot-cycles=" + exact.CycleType(p)
+	ct := exact.CycleType(p)
+	if b.N >= 5 && ct != "id" {
+		// sizes 5 and 6 (large.go): only the longest cycle, so that one defect does not get a key
+		// per partition of n
+		parts := strings.Split(ct, "+")
+		ct = parts[len(parts)-1]
+		if len(parts) > 1 {
+			ct += "(longest)"
+		}
+	}
+	s := "pivot-cycles=" + ct
 	if !exact.InterchangeConsistent(p) {
 		s += ",perm!=interchange-seq"
 	}
@@ -281,6 +355,7 @@ func runCase(cs Case) (v verdict) {
 	u := unitRoundoff(cs.Elem)
 	M := exact.FromInts(cs.N, cs.A)
 	n := cs.N
+	vk := func(operand string) string { return viewOf(cs.Views, operand) }
 	mask := cs.Mask
 	full := make([]bool, n)
 	for i := range full {
@@ -343,7 +418,7 @@ func runCase(cs Case) (v verdict) {
 
 	switch cs.Routine {
 	case "matrixInverse":
-		a := buildMatrix(t, M)
+		a := buildMatrixV(t, M, vk("in"))
 		var args []interface{}
 		if has(cs.Opt, "PD") {
 			args = append(args, matrixInverse.PositiveDefinite{Value: true})
@@ -356,8 +431,8 @@ func runCase(cs Case) (v verdict) {
 		}
 		if has(cs.Opt, "insitu") {
 			args = append(args, &matrixInverse.InSitu{
-				Id: garbageMatrix(t, n), A: garbageMatrix(t, n), B: garbageVector(t, n),
-				Cholesky: cholesky.InSitu{L: garbageMatrix(t, n), S: ad.NewScalar(t, 7.25), T: ad.NewScalar(t, -3.5)}})
+				Id: garbageMatrixV(t, n, vk("id")), A: garbageMatrixV(t, n, vk("a")), B: garbageVectorV(t, n, vk("b")),
+				Cholesky: cholesky.InSitu{L: garbageMatrixV(t, n, vk("L")), S: ad.NewScalar(t, 7.25), T: ad.NewScalar(t, -3.5)}})
 		}
 		var X ad.Matrix
 		res := guarded(n, func() error {
@@ -376,10 +451,18 @@ func runCase(cs Case) (v verdict) {
 		})
 
 	case "gaussJordan":
-		a := buildMatrix(t, M)
-		x := ad.NullDenseMatrix(t, n, n)
-		x.SetIdentity()
-		b := buildVector(t, cs.Rhs)
+		a := buildMatrixV(t, M, vk("a"))
+		x := newMatrix(t, n, vk("x"))
+		for i := 0; i < n; i++ {
+			for j := 0; j < n; j++ {
+				if i == j {
+					x.At(i, j).SetFloat64(1)
+				} else {
+					x.At(i, j).SetFloat64(0)
+				}
+			}
+		}
+		b := buildVectorV(t, cs.Rhs, vk("b"))
 		var args []interface{}
 		if has(cs.Opt, "UT") {
 			args = append(args, gaussJordan.UpperTriangular{Value: true})
@@ -408,17 +491,17 @@ func runCase(cs Case) (v verdict) {
 		})
 
 	case "backSubstitution":
-		a := buildMatrix(t, M)
+		a := buildMatrixV(t, M, vk("in"))
 		var b ad.Vector
 		rhs := cs.Rhs
 		if has(cs.Opt, "nilb") {
 			rhs = make([]int, n)
 		} else {
-			b = buildVector(t, cs.Rhs)
+			b = buildVectorV(t, cs.Rhs, vk("b"))
 		}
 		var args []interface{}
 		if has(cs.Opt, "insitu") {
-			args = append(args, &backSubstitution.InSitu{A: garbageMatrix(t, n), X: garbageVector(t, n), T: ad.NewScalar(t, 7.25)})
+			args = append(args, &backSubstitution.InSitu{A: garbageMatrixV(t, n, vk("a")), X: garbageVectorV(t, n, vk("xv")), T: ad.NewScalar(t, 7.25)})
 		}
 		var X ad.Vector
 		res := guarded(n, func() error {
@@ -437,7 +520,7 @@ func runCase(cs Case) (v verdict) {
 		})
 
 	case "determinant":
-		a := buildMatrix(t, M)
+		a := buildMatrixV(t, M, vk("in"))
 		var args []interface{}
 		if has(cs.Opt, "PD") {
 			args = append(args, determinant.PositiveDefinite{Value: true})
@@ -446,7 +529,7 @@ func runCase(cs Case) (v verdict) {
 			args = append(args, determinant.LogScale{Value: true})
 		}
 		if has(cs.Opt, "insitu") {
-			args = append(args, &determinant.InSitu{Cholesky: cholesky.InSitu{L: garbageMatrix(t, n), S: ad.NewScalar(t, 7.25), T: ad.NewScalar(t, -3.5)}})
+			args = append(args, &determinant.InSitu{Cholesky: cholesky.InSitu{L: garbageMatrixV(t, n, vk("L")), S: ad.NewScalar(t, 7.25), T: ad.NewScalar(t, -3.5)}})
 		}
 		var D ad.Scalar
 		res := guarded(n, func() error {
@@ -519,6 +602,45 @@ func elemClass(cs Case) string {
 		}
 	}
 	return "generic"
+}
+
+func describe(cs Case, what string) string {
+	vs := ""
+	if cs.Views != "" {
+		vs = " views{" + cs.Views + "}"
+	}
+	return fmt.Sprintf("%s(%s) %s%s on A=%v mask=%v rhs=%v: %s", cs.Routine, cs.Opt, cs.Elem, vs, exact.FromInts(cs.N, cs.A), cs.Mask, cs.Rhs, what)
+}
+
+// judge runs a case and derives the violation key ("" = no violation). For a case with view
+// operands the key names the operand whose view alone makes the call fail: the same case is
+// re-run with plain operands (fails too: not a matter of views, the key of the plain case is
+// reported) and with each view operand on its own.
+func judge(cs Case) (verdict, string, string) {
+	v := runCase(cs)
+	if v.bad == "" {
+		return v, "", ""
+	}
+	if cs.Views == "" {
+		return v, keyOf(cs, v), v.what
+	}
+	plain := cs
+	plain.Views = ""
+	if pv := runCase(plain); pv.bad != "" {
+		return v, keyOf(plain, pv), pv.what + " (also with plain operands)"
+	}
+	for _, ov := range strings.Split(cs.Views, ",") {
+		single := cs
+		single.Views = ov
+		if sv := runCase(single); sv.bad != "" {
+			kv := v
+			kv.class = "view:" + ov // the view is the structural signature, whatever the pivot order or mask
+			return v, keyOf(cs, kv), v.what + " (with plain operands the call is correct; the view " + ov + " alone makes it fail)"
+		}
+	}
+	kv := v
+	kv.class = "view:combination-only"
+	return v, keyOf(cs, kv), v.what + " (with plain operands and with each view on its own the call is correct)"
 }
 
 func keyOf(cs Case, v verdict) string {
@@ -661,7 +783,7 @@ func casesFor(m exact.Mat, full bool) []Case {
 		elems = []string{"Float64", "Real64", "Float32", "Real32"}
 	}
 	rhs := rhsList(n)
-	masks := allMasks(n)
+	masks := masksFor(n)
 	upper := m.IsUpper()
 	spd := m.IsSPD()
 	var cs []Case
@@ -756,15 +878,15 @@ func explore(c *vf.Ctx, fams []family) {
 			for k, cs := range cases {
 				rank := int64(fi)*1e15 + sumAbs(m)*1e12 + i*1000 + int64(k)
 				c.Guard(cs.Routine+"|"+cs.Opt+"|"+cs.Elem, rank, cs)
-				v := runCase(cs)
+				v, key, what := judge(cs)
 				c.Eval(1)
 				if v.nontriv {
 					c.Nontrivial(1)
 				}
 				c.Outcome(cs.Routine + "|" + cs.Opt + "|" + v.outcome)
 				c.Count("outcome:"+cs.Routine+":"+v.outcome, 1)
-				if v.bad != "" {
-					c.Violate(keyOf(cs, v), fmt.Sprintf("%s(%s) %s on A=%v mask=%v rhs=%v: %s", cs.Routine, cs.Opt, cs.Elem, m, cs.Mask, cs.Rhs, v.what), rank, cs)
+				if key != "" {
+					c.Violate(key, describe(cs, what), rank, cs)
 				}
 				if gidx%50021 == 0 && k == 1 {
 					c.Sample(cs)
@@ -778,15 +900,19 @@ func main() {
 	vf.Main(vf.Spec{
 		ID:    "C04",
 		Level: "exploration",
-		Rule: "every n x n integer matrix of the stated lattices x every routine (matrixInverse, gaussJordan solve, determinant, backSubstitution) x every option set whose precondition the matrix satisfies exactly " +
-			"(PositiveDefinite only on exactly-SPD, UpperTriangular/backSubstitution only on upper-triangular input; Submatrix over all 2^n masks; caller-supplied InSitu buffers pre-filled with finite garbage; LogScale) x element type x right-hand side; " +
+		Rule: "every n x n integer matrix of the stated lattices (n<=3, thorough n<=4) and of the structured families of sizes 5 and 6 (large.go: all n! row permutations of unit upper-triangular templates = every pivot order, companion matrices in four orientations over all coefficient vectors, bordered identities, symmetric positive-definite tridiagonal, unit upper-triangular Toeplitz; thorough also permutation matrices +-1 in one entry) x every routine (matrixInverse, gaussJordan solve, determinant, backSubstitution) x every option set whose precondition the matrix satisfies exactly " +
+			"(PositiveDefinite only on exactly-SPD, UpperTriangular/backSubstitution only on upper-triangular input; Submatrix over all 2^n masks for n<=4 and over {full, empty, each single exclusion, both alternating masks, leading and trailing half} for n>=5; caller-supplied InSitu buffers pre-filled with finite garbage; LogScale) x element type x right-hand side; " +
+			"plus view operands (views.go): on the lattices n=1, n=2 and n=3 over {0,1} (+ the symmetric n=3 matrices with diagonal 2; thorough: + row-permuted triangular, companion, tridiagonal and Toeplitz families of size 4) every routine x option set (masks: full and each single exclusion) x all four element types x every assignment of view kinds {plain, transposed view, slice of a larger matrix, slice of a transposed larger matrix; vectors: plain, slice of a longer vector} to ALL caller-supplied operands the option set uses (input matrix, right-hand side, gaussJordan's a/x/b, InSitu Id/A/B/Cholesky.L, backSubstitution InSitu A/X) with at least one view, judged by the same defining equations; a violation that also occurs with plain operands is reported under the plain key, otherwise under the single view operand that reproduces it; " +
 			"plus two-call histories sharing one in-situ object (hist.go): every routine with work buffers x ordered pairs of option sets x first inputs of a lattice containing singular, not-SPD, non-triangular and non-finite matrices x regular admissible second inputs, the second call must equal the same call with fresh buffers (non-trivial when the first call failed or its input was inadmissible); " +
+			"plus recycle histories (hist.go): the matrix RETURNED by a first call (matrixInverse default/UpperTriangular/PositiveDefinite, cholesky L, cholesky LDL D; first inputs: tridiagonal, diagonal 2, off-diagonals {0,1}) is handed to a second call of every routine as each matrix buffer its option set uses (InSitu Id/A/Cholesky.L/D, backSubstitution InSitu.A, gaussJordan a/x) x regular admissible second inputs x all four element types, the second call must equal the same call with fresh buffers (non-trivial when the first call returned a matrix); " +
 			"a case is non-trivial when the selected block is exactly regular (defining equation checked against tol*kappa from the exact inverse) or structurally singular (must fail loudly or return non-finite values); exactly singular but not structurally singular blocks are executed but not judged",
 		Assume: []string{
 			"gaussJordan.Run is called with x = identity (its use as inverse/solve); UpperTriangular is only promised for x0 = I",
 			"Submatrix selects the principal block A[S,S]; entries of x and b outside the block must stay untouched (as asserted by the repository's own TestSubmatrixInverse)",
 			"tolerance 1024*u*kappa_inf(A)*max(1,|b|_inf), u = 2^-24 for Float32/Real32 and 2^-53 otherwise",
 			"in-situ garbage placed by the harness is finite (no NaN/Inf placed in caller buffers); whatever the library itself leaves in the buffers after an earlier (also failed) call is a legitimate buffer state",
+			"view operands of one call never share storage with each other (aliasing is C08's subject); the storage of a sliced view outside the view holds finite junk and is not inspected afterwards (C10's subject); operands are filled entry by entry through At(i,j), never through the library's bulk setters",
+			"a matrix returned by a routine belongs to the caller and may be passed as any buffer of a later call",
 		},
 		Run: func(c *vf.Ctx) {
 			a5 := []int64{0, 1, -1, 2, -2}
@@ -807,8 +933,11 @@ func main() {
 				// whole lattice, Float32 + Real32 additionally on the {-1,0,1} sub-lattice
 				fams = []family{latticeFamily(1, a5, always), latticeFamily(2, a5, always), latticeFamily(3, a4, small(1))}
 			}
+			fams = append(fams, largeFamilies(c.Thorough())...)
 			explore(c, fams)
+			exploreViews(c)
 			exploreHistories(c)
+			exploreRecycle(c)
 		},
 		Replay: func(c *vf.Ctx, raw json.RawMessage) {
 			var kind struct {
@@ -830,9 +959,8 @@ func main() {
 				c.HarnessError(err.Error())
 				return
 			}
-			v := runCase(cs)
-			if v.bad != "" {
-				c.Violate(keyOf(cs, v), v.what, 0, cs)
+			if _, key, what := judge(cs); key != "" {
+				c.Violate(key, describe(cs, what), 0, cs)
 			}
 		},
 	})
